@@ -105,3 +105,52 @@ def is_method(callee, type_part, method):
     if not callee:
         return False
     return callee.split("::")[-1] == method and (type_part + "::<" in callee or type_part + "::" in callee or ("<" + type_part) in callee or (type_part + "<") in callee or type_part in callee)
+
+
+def calls_norm(body, *suffixes, include_tracing=False):
+    """calls whose generic-stripped callee path ends with one of the suffixes"""
+    return [c for c in body.calls(include_tracing) if c.norm and c.norm.endswith(suffixes)]
+
+
+def var_name(t):
+    return t[1] if isinstance(t, tuple) and t and t[0] == "var" else None
+
+
+def is_var(t, *names):
+    return var_name(t) in names
+
+
+def contains_var(t, *names):
+    return any(isinstance(s, tuple) and s and s[0] == "var" and s[1] in names for s in subterms(t))
+
+
+def phi_alts(t):
+    """alternatives of a phi term (a non-phi term is its own single alternative)"""
+    if isinstance(t, tuple) and t and t[0] == "phi":
+        out = []
+        for a in t[1]:
+            out.extend(phi_alts(a))
+        return out
+    return [t]
+
+
+def table_of(ctx, body, term):
+    """which lock-protected field a map receiver term denotes, e.g. 'Session.streams' (via guard type or lock call)"""
+    from engine.anl.locks import guard_info, lock_fields, norm_class
+    lf = ctx.extra.get("_lock_fields")
+    if lf is None:
+        lf = lock_fields(ctx.P)
+        ctx.extra["_lock_fields"] = None  # keep evidence clean
+        ctx._lf = lf
+    lf = getattr(ctx, "_lf", lf)
+    if isinstance(term, tuple) and term and term[0] == "var" and len(term) > 2:
+        gi = guard_info(body.lty(term[2]))
+        if gi:
+            names = lf.get(gi[1], [])
+            return names[0] if names else None
+    if isinstance(term, tuple) and term and term[0] == "call" and term[1].endswith(("::read", "::write", "::lock")) and term[3]:
+        v = var_name(term[3][0])
+        if v and v.startswith("self."):
+            owner = "Session" if body.name.startswith("session::session::Session") else body.name.split("::")[-3] if "::" in body.name else "?"
+            return "%s.%s" % (owner, v[5:])
+    return None
